@@ -215,8 +215,11 @@ impl Types {
             }
             MemberKind::Int(n) => {
                 let value = permissive::deserialize::<I256, _>(value)?;
+                // NOTE: The two's complement range is asymmetric: a negative
+                // value `v` fits iff `!v == -v - 1` fits in `n - 1` bits.
+                let magnitude = if value.is_negative() { !value } else { value };
                 ensure!(
-                    value.unsigned_abs().leading_zeros() + n >= 256,
+                    magnitude.leading_zeros() + n > 256,
                     "value {value:#x} overflows int{n}",
                 );
                 value.to_be_bytes()
